@@ -283,6 +283,26 @@ class AttrsPositionalKind(AttrsKind):
         return "@attrs.define\nclass Model:\n" + _body(self._fields(shape, names)) + self._hook(with_log, self._derived(shape, names))
 
 
+class AttrsTakesSelfKind(AttrsKind):
+    """positional attrs class whose defaults are instance-dependent factories (attrs.Factory(..., takes_self=True)): the loader cannot
+    pass such a default itself, it leaves the parameter out - and must then pass the later parameters by keyword"""
+    name = "attrs_takes_self"
+
+    def supports(self, shape, sch):
+        return _defaults_last(shape)
+
+    def source(self, shape, names, with_log=False):
+        lines = []
+        for f, (n, a, req, d) in zip(shape, self._fields(shape, names)):
+            if req or f.get("dir", "io") == "out":
+                lines.append(f"    {n}: {a}\n" if req else f"    {n}: {a} = {d!r}\n")
+            else:
+                fac = names.factory(f["ty"])
+                val = f"{fac.__name__}()" if fac else repr(names.default(f["ty"]))
+                lines.append(f"    {n}: {a} = attrs.Factory(lambda self: {val}, takes_self=True)\n")
+        return "@attrs.define\nclass Model:\n" + "".join(lines) + self._hook(with_log, self._derived(shape, names))
+
+
 class AttrsInheritedFrozenKind(AttrsKind):
     """frozen slotted attrs classes, first field inherited"""
     name = "attrs_inherited_frozen"
@@ -315,6 +335,6 @@ class TypedDictInheritedKind(TypedDictKind):
 MAIN_KINDS = [DataclassKind(), NamedTupleKind(), TypedDictKind(), TypedDictTotalFalseKind(), AttrsKind(), PydanticKind(), SqlalchemyKind()]
 # other ways to declare the same logical model in the same kinds: each program meets some of them (chosen by its hash)
 VARIANT_KINDS = [DataclassPositionalKind(), DataclassInheritedKind(), AttrsPositionalKind(), AttrsInheritedFrozenKind(), PydanticInheritedKind(),
-                 TypedDictInheritedKind(), SqlalchemyRenamedKind()]
+                 TypedDictInheritedKind(), SqlalchemyRenamedKind(), AttrsTakesSelfKind()]
 KINDS = MAIN_KINDS + VARIANT_KINDS
 BY_NAME = {k.name: k for k in KINDS}
